@@ -536,7 +536,7 @@ class Origins:
                     out.add(("setdiscr", d[1], s["variant"]))
                     continue
                 rv = s["rv"]
-                if rv["k"] == "aggregate" and rv.get("agg") in ("tuple", "adt") and fproj and fproj[0][1]["idx"] < len(rv["ops"]) \
+                if rv["k"] == "aggregate" and rv.get("agg") in ("tuple", "adt", "closure") and fproj and fproj[0][1]["idx"] < len(rv["ops"]) \
                         and all(pe["k"] in ("downcast", "deref") for pe in place["p"][:fproj[0][0]]):
                     op = rv["ops"][fproj[0][1]["idx"]]
                     rest = place["p"][fproj[0][0] + 1:]
@@ -544,6 +544,11 @@ class Origins:
                         out |= self.of_place({"l": op["place"]["l"], "p": list(op["place"]["p"]) + list(rest)}, seen - {op["place"]["l"]})
                     else:
                         out |= self.of_operand(op, seen)
+                    continue
+                # a copy / move of another place keeps the projections still to be applied (`env = closure; env.2` is `closure.2`)
+                if rv["k"] == "use" and rv["op"]["k"] in ("copy", "move") and fproj:
+                    src = rv["op"]["place"]
+                    out |= self.of_place({"l": src["l"], "p": list(src["p"]) + list(place["p"])}, seen - {src["l"]})
                     continue
                 out |= self.of_rvalue(s["rv"], d[1], d[2], seen)
             elif d[0] == "partial":
@@ -1050,6 +1055,66 @@ def _renumber(x, loff, boff, ret_local):
     return out
 
 
+COMBINATORS = {
+    # callee -> (adt, variant whose payload is handed to the closure, its discriminant, the other variant, does the other variant carry a payload)
+    "core::result::Result::and_then": ("core::result::Result", "Ok", 0, "Err", True),
+    "core::option::Option::and_then": ("core::option::Option", "Some", 1, "None", False),
+}
+
+
+def _devirtualise_and_then(prog, cur):
+    """`x.and_then(closure)` where the closure is built in this body: replaced by `match x { Ok(v) => <closure body with v>, Err(e) =>
+    Err(e) }` (Option alike), so that what the closure calls is visible to the rules as part of this body.  Returns a new Body or None."""
+    import copy
+    for c in cur.calls():
+        spec = COMBINATORS.get(c.callee or "")
+        if spec is None or len(c.args) != 2 or c.t.get("target") is None or c.t["dst"]["p"]:
+            continue
+        a0, a1 = c.args
+        if a0["k"] not in ("copy", "move") or a1["k"] not in ("copy", "move") or a0["place"]["p"] or a1["place"]["p"]:
+            continue
+        clos = cur.locals[a1["place"]["l"]].get("closure")
+        cb = prog.bodies.get(norm(clos)) if clos else None
+        if cb is None or cb.kind != "Closure" or cb.arg_count != 2 or cb.loops() is None:
+            continue
+        adt, okv, okd, otherv, other_payload = spec
+        j = copy.deepcopy(cur.j)
+        loff, boff = len(j["locals"]), len(j["blocks"])
+        ret_local = loff
+        j["locals"] = j["locals"] + copy.deepcopy(cb.j["locals"])
+        dl = len(j["locals"])
+        j["locals"].append({"ty": "isize", "name": None})
+        new_blocks = []
+        for blk in cb.j["blocks"]:
+            nb = _renumber(blk, loff, boff, ret_local)
+            if nb["term"]["k"] == "return":
+                nb["stmts"] = nb["stmts"] + [{"k": "assign", "dst": copy.deepcopy(c.t["dst"]), "rv": {"k": "use", "op": {"k": "move", "place": {"l": ret_local, "p": []}}}, "line": c.t.get("line", 0)}]
+                nb["term"] = {"k": "goto", "target": c.t["target"]}
+            new_blocks.append(nb)
+        line = c.t.get("line", 0)
+        payload = {"l": a0["place"]["l"], "p": [{"k": "downcast", "idx": okd, "variant": okv, "adt": adt}, {"k": "field", "idx": 0, "ty": cb.j["locals"][2].get("ty"), "adt": adt, "variant": okv, "name": "0"}]}
+        bind = {"stmts": [{"k": "assign", "dst": {"l": loff + 1, "p": []}, "rv": {"k": "use", "op": copy.deepcopy(a1)}, "line": line},
+                          {"k": "assign", "dst": {"l": loff + 2, "p": []}, "rv": {"k": "use", "op": {"k": "move", "place": payload}}, "line": line}],
+                "term": {"k": "goto", "target": boff}}
+        if other_payload:
+            ops = [{"k": "move", "place": {"l": a0["place"]["l"], "p": [{"k": "downcast", "idx": 1 - okd, "variant": otherv, "adt": adt}, {"k": "field", "idx": 0, "ty": "?", "adt": adt, "variant": otherv, "name": "0"}]}}]
+            fields = ["0"]
+        else:
+            ops, fields = [], []
+        other = {"stmts": [{"k": "assign", "dst": copy.deepcopy(c.t["dst"]), "rv": {"k": "aggregate", "agg": "adt", "adt": adt, "variant": otherv, "fields": fields, "ops": ops}, "line": line}],
+                 "term": {"k": "goto", "target": c.t["target"]}}
+        B, E = boff + len(new_blocks), boff + len(new_blocks) + 1
+        j["blocks"] = j["blocks"] + new_blocks + [bind, other]
+        blk = j["blocks"][c.bb]
+        blk["stmts"] = blk["stmts"] + [{"k": "assign", "dst": {"l": dl, "p": []}, "rv": {"k": "discr", "place": {"l": a0["place"]["l"], "p": []}, "adt": adt}, "line": line}]
+        blk["term"] = {"k": "switch", "discr": {"k": "move", "place": {"l": dl, "p": []}}, "targets": [[okd, B]], "otherwise": E}
+        nb = Body(j, cur.crate)
+        nb.alias, nb.origin_alias, nb.iteration_start = dict(cur.alias), dict(cur.origin_alias), cur.iteration_start
+        nb.inlined = getattr(cur, "inlined", []) + [cb.npath]
+        return nb
+    return None
+
+
 def inline_single_use_helpers(prog, body, keep=(), max_rounds=3):
     """Body in which every direct call of a workspace function that (a) has this call as its ONLY call site in the workspace, (b) is not
     named in `keep` and (c) is not recursive is replaced by the callee's blocks (parameters bound by assignments, the return slot
@@ -1059,7 +1124,11 @@ def inline_single_use_helpers(prog, body, keep=(), max_rounds=3):
     keep = set(keep)
     j = None
     cur = body
-    for _ in range(max_rounds):
+    for _ in range(max_rounds + 2):
+        dv = _devirtualise_and_then(prog, cur)
+        if dv is not None:
+            cur = dv
+            continue
         cand = None
         for c in cur.calls():
             tgt = c.target
